@@ -13,6 +13,10 @@ type vQuerySpec struct {
 	hasRel  bool
 	relComp int
 	target  Entity
+	// optional second relation constraint (on the other relation component)
+	hasRel2  bool
+	relComp2 int
+	target2  Entity
 }
 
 func (W *vWorld) entMask(i int) bitMask {
@@ -36,6 +40,9 @@ func (W *vWorld) matches(i int, q *vQuerySpec) bool {
 	if q.hasRel {
 		ok = ok && m.has[q.relComp] && m.tgt[q.relComp-cR1] == q.target
 	}
+	if q.hasRel2 {
+		ok = ok && m.has[q.relComp2] && m.tgt[q.relComp2-cR1] == q.target2
+	}
 	return ok
 }
 
@@ -44,20 +51,35 @@ func (W *vWorld) arbQuerySpec(withRel bool) *vQuerySpec {
 	if withRel {
 		q.hasRel = true
 		q.relComp = cR1 + vPick("relcomp", 2)
-		q.target = Entity{entityID(vU32("t.id")), vU32("t.gen")}
-		vassume(int(q.target.id) < len(W.w.storage.entityPool.entities) && q.target.id != 1) // forged ids and the reserved wildcard id are outside the claim
-		// only handles that were issued at some time: gen <= newest generation issued for that id
-		issued := vpure(func() bool {
-			ok := q.target.id == 0
-			for j := 0; j < W.n; j++ {
-				ok = ok || (q.target.id == W.e[j].h.id && q.target.gen <= W.e[j].h.gen)
-			}
-			return ok
-		})
-		vassume(issued)
+		q.target = W.arbTarget("t")
 		// a relation constraint requires the relation component in the filter (API precondition)
 		vassume(q.f.mask.Get(W.id[q.relComp].id))
 	}
+	return q
+}
+
+// arbTarget: a symbolic handle (id and generation) that was issued at some time, or zero
+func (W *vWorld) arbTarget(l string) Entity {
+	t := Entity{entityID(vU32(l + ".id")), vU32(l + ".gen")}
+	vassume(int(t.id) < len(W.w.storage.entityPool.entities) && t.id != 1) // forged ids and the reserved wildcard id are outside the claim
+	// only handles that were issued at some time: gen <= newest generation issued for that id
+	issued := vpure(func() bool {
+		ok := t.id == 0
+		for j := 0; j < W.n; j++ {
+			ok = ok || (t.id == W.e[j].h.id && t.gen <= W.e[j].h.gen)
+		}
+		return ok
+	})
+	vassume(issued)
+	return t
+}
+
+// arbQuerySpec2: constraints on BOTH relation components (R1 -> target, R2 -> target2)
+func (W *vWorld) arbQuerySpec2() *vQuerySpec {
+	q := &vQuerySpec{f: filter{mask: vArbMask("with"), without: vArbMask("without"), hasWithout: vBool("hasWithout"), cache: maxCacheID}}
+	q.hasRel, q.relComp, q.target = true, cR1, W.arbTarget("t1")
+	q.hasRel2, q.relComp2, q.target2 = true, cR2, W.pickTarget("t2") // zero, alive, dead and recycled handles (picked, not symbolic: keeps the typed API's Alive lookups from squaring the path count)
+	vassume(q.f.mask.Get(W.id[cR1].id) && q.f.mask.Get(W.id[cR2].id))
 	return q
 }
 
@@ -73,6 +95,9 @@ func (W *vWorld) indexOf(e Entity) int {
 func (W *vWorld) rel(q *vQuerySpec) []Relation {
 	if !q.hasRel {
 		return nil
+	}
+	if q.hasRel2 {
+		return []Relation{RelID(W.id[q.relComp], q.target), RelID(W.id[q.relComp2], q.target2)}
 	}
 	return []Relation{RelID(W.id[q.relComp], q.target)}
 }
@@ -304,6 +329,106 @@ func vTypedQuery2RelMid(W *vWorld, q *vQuerySpec, cached, perQuery bool, tag str
 	cnt = q2.Count()
 	vcheck(tag+"/count", cnt == n)
 	q2.Close()
+}
+
+// arity 2 over both relation components: targets for R1 and R2 given in the filter, per
+// query, or one each (split 0: both fixed, 1: R1 fixed + R2 per query, 2: R2 fixed + R1 per
+// query, 3: both per query); walk, GetRelation, Count, EntityAt against the model
+func vTypedQuery2TwoTargets(W *vWorld, q *vQuerySpec, cached bool, tag string) {
+	f := NewFilter2[vChild, vChild2](W.w)
+	f.filter.mask, f.filter.without, f.filter.hasWithout = q.f.mask, q.f.without, q.f.hasWithout
+	split := vPick("split", 4)
+	r1, r2 := RelIdx(0, q.target), RelIdx(1, q.target2)
+	var fixed, rel []Relation
+	switch split {
+	case 0:
+		fixed = []Relation{r1, r2}
+	case 1:
+		fixed, rel = []Relation{r1}, []Relation{r2}
+	case 2:
+		fixed, rel = []Relation{r2}, []Relation{r1}
+	default:
+		rel = []Relation{r1, r2}
+	}
+	ok1 := vpure(func() bool { return W.targetOK(q.target) })
+	ok2 := vpure(func() bool { return W.targetOK(q.target2) })
+	fixedOK := (split == 3) || (split == 0 && ok1 && ok2) || (split == 1 && ok1) || (split == 2 && ok2)
+	if !fixedOK {
+		vcheck(tag+"/dead-target-rejected", vpanics(func() { f.Relations(fixed...) }))
+		return
+	}
+	if len(fixed) > 0 {
+		f.Relations(fixed...)
+	}
+	if cached {
+		f.Register()
+	}
+	if !(ok1 && ok2) {
+		vcheck(tag+"/dead-target-rejected", vpanics(func() { f.Query(rel...) }))
+		vcheck(tag+"/rejected-query-holds-no-lock", !W.w.IsLocked())
+		return
+	}
+	qu := f.Query(rel...)
+	var visits [vNE]int
+	var order [vNE]Entity
+	strangers, total := 0, 0
+	for qu.Next() {
+		e := qu.Entity()
+		j := W.indexOf(e)
+		if j < 0 {
+			strangers++
+			continue
+		}
+		visits[j]++
+		if total < vNE {
+			order[total] = e
+		}
+		total++
+		vcheck(tag+"/relation-targets-are-live-data", qu.GetRelation(0) == W.e[j].tgt[0] && qu.GetRelation(1) == W.e[j].tgt[1])
+		if total > vNE {
+			break
+		}
+	}
+	vcheck(tag+"/unlocked-after-exhaustion", !W.w.IsLocked())
+	n := W.checkVisits(tag, q, &visits, strangers, total)
+	q2 := f.Query(rel...)
+	var cnt int
+	cnt = q2.Count()
+	vcheck(tag+"/count", cnt == n)
+	if n > 0 {
+		i := vU8("at")
+		vassume(int(i) < n)
+		var ea Entity
+		ea = q2.EntityAt(int(i))
+		want := vpure(func() bool {
+			ok := true
+			for k := 0; k < n; k++ {
+				if int(i) == k {
+					ok = ok && ea == order[k]
+				}
+			}
+			return ok
+		})
+		vcheck(tag+"/entity-at", want)
+	}
+	q2.Close()
+	vcheck(tag+"/unlocked-after-close", !W.w.IsLocked())
+}
+
+func VerifC03_TypedQuery2TwoTargets() {
+	W := vShapeFor(1)
+	vTypedQuery2TwoTargets(W, W.arbQuerySpec2(), false, "walk")
+	vreach("end")
+}
+func VerifC05_CachedQuery2TwoTargets() {
+	W := vShapeFor(1)
+	vTypedQuery2TwoTargets(W, W.arbQuerySpec2(), true, "cached")
+	vreach("end")
+}
+func VerifC03_UnsafeQueryTwoTargets() {
+	W := vShapeFor(1)
+	vUnsafeQueryWalk(W, W.arbQuerySpec2(), "walk")
+	vreach("end")
 }
 
 func VerifC03_TypedQuery2RelFilter() {
